@@ -53,5 +53,11 @@ func NewKeySet(keys ...Key) KeySet {
 	if len(keys) == 0 {
 		return KeySet{}
 	}
-	return KeySet{keys[0], keys[1:]}
+	head := keys[0]
+	if head == nil {
+		// A nil first key (e.g. index.String("")) is the empty key, not the
+		// absence of keys: a nil head marks the empty set.
+		head = Key{}
+	}
+	return KeySet{head, keys[1:]}
 }
